@@ -78,3 +78,11 @@ check(
     "Trusted: TLC, SGR tokeniser of the driver, reflection rule for line writers. Readings: balanced tags only; raw line writers may indent or not; colour table = 16-colour convention of the backend. Pastel quirks outside the message family are listed in docs/notes_C11.md.",
     "DESIGN.md#C11",
 )
+check(
+    "C14",
+    ["TableLayout", "TableLayoutTrace"],
+    "TLA+ model of table layout (A: CellWrapper.fit with exact round(), exact textwrap model, BorderUtil drawing; P: succeeds / fits / rectangle / aligned columns / text kept / table unchanged over the drawn text) checked by TLC; every behaviour replayed on Table.render; random tables decided by TableLayoutTrace.tla",
+    "TLC enumerates all tables of the bounded family (1-2 columns x 1-2 rows, cells of 0-3 words with lengths {1,3,7..}, header or not, 4 border styles, available widths nCols..12; thorough adds 3 columns) through the step machine of CellWrapper.fit and checks the six P-invariants on the drawn text; the pinned variant (Repaired = FALSE) must produce the width-0 failure; Table.render reproduces the model's output character for character on every one of the 28 112 (quick) / 352 233 (thorough) behaviours; random tables up to 6x6 with cells up to 1500 characters, widths 20..200, indentation 0..8, ANSI/plain are decided by TLC on the rendered lines.",
+    "Trusted: TLC, the line/cell projection of the driver (reads Table._rows/_header_row for 'unchanged'). Known finding (open): style-tagged cells that must be wrapped are cut by tag-unaware textwrap. Hyphenated words, tabs, embedded newlines, East-Asian widths outside the model.",
+    "DESIGN.md#C14",
+)
